@@ -18,8 +18,8 @@ type OracleC18 struct {
 	have       bool
 }
 
-func NewOracleC18() *OracleC18 { return &OracleC18{counters: newCounters()} }
-func (o *OracleC18) ID() string  { return "C18" }
+func NewOracleC18() *OracleC18  { return &OracleC18{counters: newCounters()} }
+func (o *OracleC18) ID() string { return "C18" }
 
 func (o *OracleC18) v(h int64, site, class, f string, a ...any) *Violation {
 	return &Violation{Property: "C18", Oracle: "stake-change-bound", Site: site, Class: class, Height: h, Msg: fmt.Sprintf(f, a...)}
